@@ -119,9 +119,13 @@ Section Exec.
 
   Definition getter := tbl -> key -> index -> M (sval V).
 
-  (** start data handed to the BlockSeries of a defined series *)
+  (** start data handed to the BlockSeries of a defined series: zeroth order of every block *)
+  Definition x_start_index (idx : index) : bool :=
+    all_zero (idx_n idx) && Nat.eqb (length (idx_n idx)) (xw_np W)
+    && Nat.ltb (idx_i idx) (xw_nb W) && Nat.ltb (idx_j idx) (xw_nb W).
+
   Definition start_sval (d : sdef) (idx : index) : option (sval V) :=
-    if all_zero (idx_n idx) then
+    if x_start_index idx then
       match sstart d with
       | StartZero => Some SZero
       | StartOne => if Nat.eqb (idx_i idx) (idx_j idx) then Some SOne else None
@@ -374,24 +378,28 @@ Section Exec.
   (** the state right after series_computation returned: start data of the defined series;
       the zeroth-order elements of every input have been evaluated (they are in the cache of
       the input).  [calls0]: callback invocations that happened before. *)
+  Definition init_entries : list (ckey * entry V) :=
+    flat_map (fun x =>
+                match kind_of alg inputs x with
+                | KSeries d =>
+                    flat_map (fun b =>
+                                let ix := (fst b, snd b, zero_order) in
+                                match start_sval d ix with
+                                | Some v => [((TTab, KN x, ix), Done v)]
+                                | None => []
+                                end) all_blocks
+                | _ => []
+                end) (map sname (aseries alg))
+    ++ flat_map (fun x =>
+                   match kind_of alg inputs x with
+                   | KInput =>
+                       map (fun b => let ix := (fst b, snd b, zero_order) in
+                                     ((TTab, KN x, ix), Done (xw_env W x ix))) all_blocks
+                   | _ => []
+                   end) inputs.
+
   Definition init_state (calls0 : nat) : st :=
-    {| cache :=
-         flat_map (fun d =>
-                     flat_map (fun b =>
-                                 let ix := (fst b, snd b, zero_order) in
-                                 match start_sval d ix with
-                                 | Some v => [((TTab, KN (sname d), ix), Done v)]
-                                 | None => []
-                                 end) all_blocks) (aseries alg)
-         ++ flat_map (fun x =>
-                        match kind_of alg inputs x with
-                        | KInput =>
-                            map (fun b => let ix := (fst b, snd b, zero_order) in
-                                          ((TTab, KN x, ix), Done (xw_env W x ix))) all_blocks
-                        | _ => []
-                        end) inputs;
-       calls := calls0;
-       log := [] |}.
+    {| cache := init_entries; calls := calls0; log := [] |}.
 End Exec.
 
 Arguments HSeries {V} s.
